@@ -109,6 +109,9 @@ impl Client {
                     .collect::<Result<Vec<_>, _>>()
                     .map_err(|_| VaultError::CouldNotDeserializeVaultScratchPad(scratch_address))?;
 
+                // unsigned, forged and foreign versions are not candidates
+                pads.retain(|s| *s.address() == scratch_address && s.is_valid());
+
                 // take the latest versions
                 pads.sort_by_key(|s| s.count());
                 let max_version = pads.last().map(|p| p.count()).unwrap_or_else(|| {
@@ -139,6 +142,14 @@ impl Client {
                 return Err(e)?;
             }
         };
+
+        // only a scratchpad at the requested address that carries its owner's signature is the vault
+        if *pad.address() != scratch_address || !pad.is_valid() {
+            error!("Scratchpad fetched for {scratch_key:?} is not signed by its owner");
+            return Err(VaultError::CouldNotDeserializeVaultScratchPad(
+                scratch_address,
+            ));
+        }
 
         Ok(pad)
     }
